@@ -5,7 +5,8 @@ Actions ==
   {[op |-> "NewSrc", n |-> n] : n \in Lens}
   \cup {[op |-> "Refill", n |-> n] : n \in Lens \ {0}}
   \cup {[op |-> "NewSink", kind |-> "closure", stop |-> s] : s \in Stops}
-  \cup {[op |-> "NewSink", kind |-> k, stop |-> 0] : k \in {"vec", "extend"}}
+  \cup {[op |-> "NewSink", kind |-> "extend", stop |-> 0]}
+  \cup {[op |-> "NewSink", kind |-> "vec", stop |-> c] : c \in {0, 2}}
   \cup {[op |-> "Feed", via |-> v] : v \in {"feed_into", "feed_into_mut", "extend"}}
   \cup {[op |-> "FeedRef", via |-> v] : v \in {"feed_ref", "extend_ref"}}
   \cup {[op |-> "Wrap"], [op |-> "DropWrap"], [op |-> "FeedWrapped"]}
